@@ -889,6 +889,16 @@ func runC04(e *Engine, r *Report, tier string) {
 		}
 	}
 
+	// ---------- R8 (erc20 side): the bridge's conversions into and out of ERC-20 run through x/erc20's conversion routines;
+	// a leg of those that fails without failing the conversion moves value on one side of the books only (C08.R7)
+	sub08 := NewReport("C08", "other")
+	runC08(e, sub08, tier)
+	for _, o := range sub08.Obls {
+		if o.Rule == "R7" {
+			r.add("R8", "C08.R7 "+o.Construct, o.Status, o.Pos, o.Detail)
+		}
+	}
+
 	// ---------- R9: an observed deposit is credited once (C01.R2 apply-once dispatch, C01.R5 parked claim executed once) ----------
 	sub01 := NewReport("C01", "other")
 	runC01(e, sub01, tier)
